@@ -6,6 +6,9 @@ The GUARD TABLE of C10: for every function that builds a response envelope, ever
   * (CLI) assigns the local `validation_status`, echoes the `validation_status:` line, raises SystemExit,
 together with the conjunction of the enclosing `if`/`elif`/`else`/`try`/`except` tests as boolean expressions
 over ATOMS (source text of the test leaves).  Tools/Envelope.v INTERPRETS this table.
+A local that is only ever bound to the constants True/False (a FLAG, e.g. `salvaged` in write.execute) and is read
+by a guard is emitted with ALL its assignment sites and their guard chains (`status_<tool>_flags`); Envelope.v
+evaluates the flag from that table, so the flag is not an opaque fact.
 
 Fail closed: any construct that could touch a tracked key or leave the function in a way this walker does not
 understand raises TranslateError.
@@ -177,6 +180,15 @@ class Walker:
                     self.single_rhs.setdefault(nm, []).append(n)
         for k in self.assigns:
             self.assigns[k].sort()
+        # FLAGS: locals whose every binding is `name = True` / `name = False` (plain or annotated assignment).  A flag
+        # that occurs in a guard is not an opaque atom: its assignment sites (with their guard chains) are emitted as a
+        # flag table and Tools/Envelope.v evaluates the flag from them.
+        self.flag_cands = set()
+        for nm, defs in self.single_rhs.items():
+            if len(defs) == len(self.assigns.get(nm, [])) and all(
+                    isinstance(d.value, ast.Constant) and isinstance(d.value.value, bool) for d in defs):
+                self.flag_cands.add(nm)
+        self.flag_sites = {}
 
     # ---- atoms
     def _version(self, node, pos):
@@ -311,6 +323,7 @@ class Walker:
         w = Walker.__new__(Walker)
         w.__dict__.update(self.__dict__)
         w.sites = []
+        w.flag_sites = {}
         w.try_no = 1000
         w.walk(stmts, [])
         return bool(w.sites)
@@ -375,6 +388,9 @@ class Walker:
                     elif isinstance(t, ast.Name) and t.id == "validation_status" and self.cli:
                         need(value is not None, f"{self.where}: bare annotation of validation_status")
                         self.emit(guards, ("ASet", "validation_status", self.val(value, pos)))
+                    elif isinstance(t, ast.Name) and t.id in self.flag_cands:
+                        need(isinstance(value, ast.Constant) and isinstance(value.value, bool), f"{self.where}: flag {t.id}")
+                        self.flag_sites.setdefault(t.id, []).append((list(guards), bool(value.value)))
                     elif isinstance(t, (ast.Tuple, ast.List)):
                         need(self.result not in _target_names(t) and "validation_status" not in _target_names(t),
                              f"{self.where}: tuple assignment to {RESULT}/validation_status")
@@ -452,6 +468,36 @@ def _atoms_of(b, acc):
         _atoms_of(b[2], acc)
 
 
+def flags_of(w):
+    """[(flag, [(guards, value)])] for every flag local that occurs in a guard of an emitted site.  Fail closed when an
+    assignment of such a flag was not visited by the walk (inside a loop / nested definition / comprehension)."""
+    import re
+    atoms = set()
+    for g, _ in w.sites:
+        for b in g:
+            _atoms_of(b, atoms)
+    for sites in w.flag_sites.values():
+        for g, _ in sites:
+            for b in g:
+                _atoms_of(b, atoms)
+    out = []
+    for nm in sorted(w.flag_cands):
+        if not any(re.fullmatch(re.escape(nm) + r"(@\d+)?", a) for a in atoms):
+            continue
+        sites = w.flag_sites.get(nm, [])
+        need(len(sites) == len(w.assigns[nm]),
+             f"{w.where}: flag `{nm}` is used in a guard but {len(w.assigns[nm]) - len(sites)} of its assignments are in "
+             "statements the walker does not enter (loop / nested definition)")
+        for g, _ in sites:
+            sub = set()
+            for b in g:
+                _atoms_of(b, sub)
+            need(not any(re.fullmatch(re.escape(x) + r"(@\d+)?", a) for a in sub for x in w.flag_cands),
+                 f"{w.where}: assignment of flag `{nm}` is guarded by another flag")
+        out.append((nm, sites))
+    return out
+
+
 def tool_tables(mod, cls, where, helper_names, result=RESULT):
     helpers = {}
     tables = []
@@ -488,7 +534,7 @@ def tool_tables(mod, cls, where, helper_names, result=RESULT):
                 if isinstance(c, ast.Constant) and c.value == "validation_status" and not (
                         isinstance(n.body[0], ast.Expr) and c is getattr(n.body[0], "value", None)):
                     raise TranslateError(f"{where}.{n.name}: mentions validation_status outside execute/helpers")
-    return [("execute", w.sites)] + tables
+    return [("execute", w.sites)] + tables, flags_of(w)
 
 
 def cli_table(mod, name):
@@ -496,10 +542,26 @@ def cli_table(mod, name):
     w = Walker(fn, f"cli.{name}", cli=True)
     w.walk(fn.body, [])
     need(any(a[0] == "AEcho" for _, a in w.sites), f"cli.{name}: no validation_status echo")
-    return [(name, w.sites)]
+    return [(name, w.sites)], flags_of(w)
 
 
-def emit_tables(name, tables, out):
+def emit_flags(name, flags, out):
+    out.append(f"(* {name}: flag locals read by the guards (assignment sites in source order)\n")
+    items = []
+    for nm, sites in flags:
+        rows = []
+        for g, v in sites:
+            gtxt = " & ".join(txt_bexp(b) for b in g) or "always"
+            out.append(("     " + nm + " = " + str(v) + "  under  " + gtxt).replace("(*", "( *").replace("*)", "* )") + "\n")
+            rows.append(f"({coq_list([coq_bexp(b) for b in g], 'bexp')}, {'true' if v else 'false'})")
+        items.append(f"({coq_str(nm)},\n  {coq_list(rows, '(list bexp * bool)')})")
+    out.append("*)\n")
+    out.append(f"Definition status_{name}_flags : list flag_table :=\n {coq_list(items, 'flag_table')}.\n\n")
+
+
+def emit_tables(name, tables_flags, out):
+    tables, flags = tables_flags
+    emit_flags(name, flags, out)
     items = []
     for fname, sites in tables:
         rows = []
